@@ -13,6 +13,38 @@ func init() {
 
 var c04Addrs = []string{"10.1.0.10", "192.168.7.7", "172.16.200.3", "2001:db8::7", "fe80::1", "203.0.113.9", "10.1.0.11", "::1", "127.0.0.1"}
 
+// nearAddr is a different address whose text is close to a: the other is a proper prefix or
+// a superstring of it, or differs in one character.
+func nearAddr(c *Ctx, a string) string {
+	switch c.T.Choose(5) {
+	case 0:
+		return a + string("0123456789"[c.T.Choose(10)])
+	case 1:
+		if len(a) > 1 && a[len(a)-2] != '.' && a[len(a)-2] != ':' {
+			return a[:len(a)-1]
+		}
+		return a + "1"
+	case 2:
+		if strings.Contains(a, ":") {
+			return a + ":2"
+		}
+		return a + "0"
+	case 3:
+		b := []byte(a)
+		i := len(b) - 1
+		if b[i] == '9' {
+			b[i] = '8'
+		} else if b[i] >= '0' && b[i] < '9' {
+			b[i]++
+		} else {
+			b[i] = '1'
+		}
+		return string(b)
+	default:
+		return "1" + a
+	}
+}
+
 func peerOf(ip string, port int) string {
 	if strings.Contains(ip, ":") {
 		return fmt.Sprintf("[%s]:%d", ip, port)
@@ -42,6 +74,12 @@ func runC04(c *Ctx) {
 	if !same {
 		// never a rejection loop on the tape: a replayed tape of zeros must terminate
 		addrB = c04Addrs[(ia+1+c.T.Choose(len(c04Addrs)-1))%len(c04Addrs)]
+		if c.T.Bool(1, 2) {
+			addrB = nearAddr(c, addrA) // textual near miss: prefix, superstring, one character
+			if addrB == addrA {
+				addrB = addrA + "9"
+			}
+		}
 	}
 	// how B's address reaches the gateway: TCP peer, or first X-Forwarded-For element
 	peerIP := addrB
@@ -79,10 +117,24 @@ func runC04(c *Ctx) {
 			b.XFF = addrA + []string{"", ", 10.200.0.9", " , 198.51.100.2, 10.200.0.9"}[c.T.Choose(3)]
 			issued = "real-download(xff=" + b.XFF + ")"
 		}
-		f := loginAndFile(c, b, &env.IdPUser{Sub: p.User, Claims: map[string]any{"preferred_username": p.User}}, "/connect")
-		if f == nil {
+		// the session may have been established from somewhere else: the address that counts
+		// is the one of the download request
+		loginFrom, loginXFF := b.From, b.XFF
+		if c.T.Bool(1, 2) {
+			b.From, b.XFF = peerOf(c04Addrs[(ia+3)%len(c04Addrs)], 52001), ""
+			issued += " after login from " + b.From
+		}
+		if ok, cb := b.Login("/connect", &env.IdPUser{Sub: p.User, Claims: map[string]any{"preferred_username": p.User}}); !ok {
+			c.Infra("login failed: callback status %d body %.100q", cb.Status, cb.Body)
 			return
 		}
+		b.From, b.XFF = loginFrom, loginXFF
+		fr := b.Get("/connect")
+		if !gotFile(fr) {
+			c.Infra("no connection file after login: %d %.100q", fr.Status, fr.Body)
+			return
+		}
+		f := env.ParseRDP(fr.Body)
 		cookie = f.Values["gatewayaccesstoken"]
 		if f.Values["full address"] != p.AllowedHost {
 			c.Infra("unexpected host in the issued file: %q", f.Values["full address"])
